@@ -12,6 +12,10 @@ package main
 //        time-out) | x undecodable | r refused by PassEvent | s split (Spawn: the pooled event becomes the
 //        child-parent, two non-pooled children go to the output)
 //        result: e <off> <k> <finalize flags…> ; …  maxok <0|1> end <inUseRaw> <waiters>
+//   c05.chain <kind> <cap> <order> <k>…   one processor, one stream, TWO actions: order 0 = [dropper, holder],
+//        order 1 = [holder, dropper]; the dropper discards events of kind q, the holder is the action of
+//        c05.pipe. A held event followed by a q (consumed by the other, non-busy action) and then silence has
+//        to be flushed by the stream time-out; same result format and idle oracle as c05.pipe.
 
 import (
 	"bufio"
@@ -33,7 +37,8 @@ import (
 
 func init() {
 	execs["c05.free"] = execPoolFree
-	execs["c05.pipe"] = execPipe
+	execs["c05.pipe"] = func(t *hx.Toks) string { return execPipeChain(t, false) }
+	execs["c05.chain"] = func(t *hx.Toks) string { return execPipeChain(t, true) }
 	gens["C05"] = genC05
 }
 
@@ -193,13 +198,33 @@ func (a *pipeAct) Do(e *pipeline.Event) pipeline.ActionResult {
 	}
 }
 
+// pipeDrop: discards events of kind q, passes everything else untouched (never busy).
+type pipeDrop struct{}
+
+func (a *pipeDrop) Start(_ pipeline.AnyConfig, _ *pipeline.ActionPluginParams) {}
+func (a *pipeDrop) Stop()                                                        {}
+func (a *pipeDrop) Do(e *pipeline.Event) pipeline.ActionResult {
+	if e.IsTimeoutKind() || e.IsChildKind() {
+		return pipeline.ActionPass
+	}
+	if n := e.Root.Dig("k"); n != nil && n.AsString() == "q" {
+		return pipeline.ActionDiscard
+	}
+	return pipeline.ActionPass
+}
+
 var pipeSeq atomic.Int64
 
-func execPipe(t *hx.Toks) string {
+func execPipeChain(t *hx.Toks, chain bool) string {
 	kind := t.Next()
 	capacity := t.Int()
-	parallel := t.Bool()
-	nsrc := t.Int()
+	parallel, nsrc, order := false, 1, 0
+	if chain {
+		order = t.Int()
+	} else {
+		parallel = t.Bool()
+		nsrc = t.Int()
+	}
 	var kinds []string
 	for !t.Done() {
 		kinds = append(kinds, t.Next())
@@ -238,13 +263,30 @@ func execPipe(t *hx.Toks) string {
 		PluginStaticInfo:  &pipeline.PluginStaticInfo{Type: "devnull"},
 		PluginRuntimeInfo: &pipeline.PluginRuntimeInfo{Plugin: outAny},
 	})
-	p.AddAction(&pipeline.ActionPluginStaticInfo{
+	holder := &pipeline.ActionPluginStaticInfo{
 		PluginStaticInfo: &pipeline.PluginStaticInfo{
 			Type:    "verif_act",
 			Factory: func() (pipeline.AnyPlugin, pipeline.AnyConfig) { return &pipeAct{}, nil },
 		},
 		MatchMode: pipeline.MatchModeAnd,
-	})
+	}
+	dropper := &pipeline.ActionPluginStaticInfo{
+		PluginStaticInfo: &pipeline.PluginStaticInfo{
+			Type:    "verif_drop",
+			Factory: func() (pipeline.AnyPlugin, pipeline.AnyConfig) { return &pipeDrop{}, nil },
+		},
+		MatchMode: pipeline.MatchModeAnd,
+	}
+	switch {
+	case !chain:
+		p.AddAction(holder)
+	case order == 0:
+		p.AddAction(dropper)
+		p.AddAction(holder)
+	default:
+		p.AddAction(holder)
+		p.AddAction(dropper)
+	}
 
 	var mu sync.Mutex
 	fins := map[int64][]uint64{}
@@ -272,7 +314,7 @@ func execPipe(t *hx.Toks) string {
 	p.Start()
 	streamed := 0
 	for _, k := range kinds {
-		if k == "p" || k == "d" || k == "h" || k == "s" {
+		if k == "p" || k == "d" || k == "h" || k == "s" || k == "q" {
 			streamed++
 		}
 	}
@@ -283,10 +325,16 @@ func execPipe(t *hx.Toks) string {
 			var body string
 			if k == "x" {
 				body = "{\"k\":\"x\",,bad\n"
-			} else if k == "s" {
-				body = fmt.Sprintf("{\"k\":\"s\",\"stream\":\"s%d\",\"a\":[{\"c\":1},{\"c\":2}]}\n", i%2)
 			} else {
-				body = fmt.Sprintf("{\"k\":%q,\"stream\":\"s%d\"}\n", k, i%2)
+				st := i % 2
+				if chain {
+					st = 0 // one stream: the processor that holds an event keeps reading this stream
+				}
+				if k == "s" {
+					body = fmt.Sprintf("{\"k\":\"s\",\"stream\":\"s%d\",\"a\":[{\"c\":1},{\"c\":2}]}\n", st)
+				} else {
+					body = fmt.Sprintf("{\"k\":%q,\"stream\":\"s%d\"}\n", k, st)
+				}
 			}
 			in.ctl.In(pipeline.SourceID(1+i%nsrc), "src", pipeline.NewOffsets(off, nil), []byte(body), false, nil)
 		}
@@ -388,6 +436,30 @@ func genC05(w *bufio.Writer, rng *hx.Rng, tier string) {
 		for _, f := range fixed {
 			fmt.Fprintf(w, "c05.pipe %s %d 0 1 %s\n", k, 1+len(f)%3, f)
 		}
+	}
+	// two actions: an event held by one action, the next event consumed by the other (non-busy) one, silence
+	chains := []string{"h q", "h q q", "h q p", "p h q", "h q h q", "h d q", "q h q s", "h x q", "h r q"}
+	nchain := 10
+	if tier == "thorough" {
+		nchain = 120
+	}
+	for _, k := range []string{"lowmem", "std"} {
+		for order := 0; order <= 1; order++ {
+			for ci, f := range chains {
+				if tier != "thorough" && ci >= 4 && (ci+order)%2 == 1 {
+					continue // quick: the first four always, half of the rest (each waits for a stream time-out)
+				}
+				fmt.Fprintf(w, "c05.chain %s %d %d %s\n", k, 1+len(f)%3, order, f)
+			}
+		}
+	}
+	calpha := []string{"p", "p", "d", "h", "h", "q", "q", "q", "s", "x", "r"}
+	for i := 0; i < nchain; i++ {
+		var ks []string
+		for j := rng.Range(2, 14); j > 0; j-- {
+			ks = append(ks, calpha[rng.Intn(len(calpha))])
+		}
+		fmt.Fprintf(w, "c05.chain %s %d %d %s\n", []string{"lowmem", "std"}[rng.Intn(2)], rng.Range(1, 6), rng.Intn(2), strings.Join(ks, " "))
 	}
 	alphabet := []string{"p", "p", "p", "d", "d", "h", "x", "r", "s", "s"}
 	for i := 0; i < npipe; i++ {
